@@ -333,12 +333,15 @@ Proof.
     destruct (i_plain i) as [| x pl] eqn:Epl.
     + destruct (i_got_cn i); [inversion H; subst; exists recs; rewrite Epl; auto |].
       destruct (parse1 D (i_rbio i)) as [[[t p] rest] |] eqn:P; [| inversion H; subst; exists recs; rewrite Epl; auto].
-      destruct (parse_head _ _ _ _ _ _ Hs P) as [recs' [-> Hr]]. exists recs'. rewrite data_of_cons.
+      destruct (parse_head _ _ _ _ _ _ Hs P) as [recs' [Er Hr]].
       destruct (N.eqb t T_DATA) eqn:Et.
-      * destruct p as [| p0 p']; inversion H; subst; cbn [upd i_rbio i_plain]; (split; [exact Hr |]).
-        -- destruct n; reflexivity.
-        -- cbn [app]. rewrite app_assoc, firstn_skipn. reflexivity.
-      * destruct (N.eqb t T_ALERT); inversion H; subst; cbn [upd i_rbio i_plain]; (split; [exact Hr | reflexivity]).
+      * destruct p as [| p0 p'].
+        -- inversion H; subst. exists ((t, []) :: recs'). split; [exact Hs |]. rewrite ?Epl, ?firstn_nil. reflexivity.
+        -- inversion H; subst. exists recs'. rewrite data_of_cons, Et. cbn [upd i_rbio i_plain]. split; [exact Hr |].
+           cbn [app]. rewrite app_assoc, firstn_skipn. reflexivity.
+      * destruct (N.eqb t T_ALERT).
+        -- inversion H; subst. exists recs'. rewrite data_of_cons, Et. cbn [upd i_rbio i_plain]. split; [exact Hr | reflexivity].
+        -- inversion H; subst. exists ((t, p) :: recs'). split; [exact Hs |]. rewrite ?Epl. reflexivity.
     + inversion H; subst. exists recs. cbn [upd i_rbio i_plain]. split; [exact Hs |].
       rewrite app_assoc, firstn_skipn. reflexivity.
   - (* write: the SSL object's receive side is untouched *)
